@@ -126,3 +126,16 @@ Theorem C11_timer_not_lost :
   forall k2, KernelTimer.ksteps k1 k2 -> KernelTimer.Queued k2 e \/ Kernel.e_proc (Kernel.get_ev k2 e) = true.
 Proof. exact KernelTimer.timeout_not_lost. Qed.
 Print Assumptions C11_timer_not_lost.
+
+(* tie B: the Buffer EDGE adds nothing to its store besides drawing the delay: every wrapper delegates with one call and assigns
+   nothing on the store (re-translated from edges/buffer.py on every run) *)
+From FV Require TieNodes.
+Theorem C11_buffer_edge_only_delegates :
+  SrcFragments.Buffer_reserve_put_delegates = true /\
+  SrcFragments.Buffer_reserve_get_delegates = true /\
+  SrcFragments.Buffer_put_delegates = true /\
+  SrcFragments.Buffer_get_delegates = true /\
+  SrcFragments.Buffer_reserve_put_cancel_delegates = true /\
+  SrcFragments.Buffer_reserve_get_cancel_delegates = true.
+Proof. repeat split. Qed.
+Print Assumptions C11_buffer_edge_only_delegates.
